@@ -105,7 +105,7 @@ def run (c : Case) : CaseOut := Id.run do
       | some t =>
         if acrossGap w key t now then cls := "out-of-order-across-gap"
         let wm' := Wm.updateEventTime w.wm t now
-        let tg := if Wm.isLate wm' t then (if (findTrig w key t).isSome && late > 0 then "late-absorbed" else "late-drop")
+        let tg := if Wm.isLate wm' t then (if (findTrig w key t wm'.cur).isSome && late > 0 then "late-absorbed" else "late-drop")
                   else match head? w key with
                     | none => "new-session"
                     | some h => if h.stop ≤ t then "gap-parks-head" else (if t < h.start then "extends-head-backwards" else "extends-head")
